@@ -30,6 +30,7 @@ type ReqRec struct {
 type Pending struct {
 	Label string
 	Addr  string
+	Owner string // lock mode: the application goroutine that sent it
 	sv    net.Conn
 	req   *sarama.VerifRequest
 }
@@ -55,6 +56,7 @@ type Server struct {
 	nconn       map[string]int
 
 	Manual  bool
+	OwnerFn func() string
 	pending []*Pending
 
 	MaxDials  int // more dial attempts than this in one execution = the client is looping
@@ -140,7 +142,11 @@ func (s *Server) serve(addr, label string, sv net.Conn) {
 			continue
 		}
 		if s.Manual {
-			s.pending = append(s.pending, &Pending{Label: label, Addr: addr, sv: sv, req: r})
+			pd := &Pending{Label: label, Addr: addr, sv: sv, req: r}
+			if s.OwnerFn != nil {
+				pd.Owner = s.OwnerFn()
+			}
+			s.pending = append(s.pending, pd)
 			s.mu.Unlock()
 			continue
 		}
@@ -208,8 +214,9 @@ func (s *Server) Heads() []*Pending {
 	return l
 }
 
-// AnswerPending serves one pending request from the current snapshot (manual mode).
-func (s *Server) AnswerPending(p *Pending) {
+// AnswerPending serves one pending request from the current snapshot (manual mode) and returns the
+// 1-based index of the response in the served log (0 if nothing was served).
+func (s *Server) AnswerPending(p *Pending) int {
 	s.mu.Lock()
 	for i := range s.pending {
 		if s.pending[i] == p {
@@ -218,11 +225,14 @@ func (s *Server) AnswerPending(p *Pending) {
 		}
 	}
 	frame := s.answerLocked(p.Addr, p.Label, p.req, p.req.Body.(*sarama.MetadataRequest))
+	k := len(s.Log)
 	s.mu.Unlock()
-	if frame != nil {
-		sv := p.sv
-		go func() { _, _ = sv.Write(frame) }()
+	if frame == nil {
+		return 0
 	}
+	sv := p.sv
+	go func() { _, _ = sv.Write(frame) }()
+	return k
 }
 
 func (s *Server) Served() int {
